@@ -17,7 +17,7 @@ KEY_WIDTH = {"a": 1, "b": 1, "c": 2, "d": 1}
 
 def _is_unitary_items(items):
     for it in items:
-        if it["t"] in ("M", "C", "K"):
+        if it["t"] in ("M", "C", "K", "CB"):
             return False
         if it["t"] == "B" and not _is_unitary_items(it["body"]):
             return False
@@ -43,8 +43,10 @@ def count_digits(items):
     return tot
 
 
-def gen_body(rng, n, depth, visible, budget, allow_measure=True, pred=None):
-    """visible: set of key names measured earlier in enclosing scopes (bindable as extern)."""
+def gen_body(rng, n, depth, visible, budget, allow_measure=True, pred=None, cond_blocks=False):
+    """visible: set of key names measured earlier in enclosing scopes (bindable as extern).
+    cond_blocks: also generate classically controlled blocks ("CB": a measurement-free CircuitOperation under
+    with_classical_controls), controls inside measurement-free bodies, and key maps that rename control keys."""
     dims = (2,) * n
     items = []
     local = set()
@@ -52,7 +54,7 @@ def gen_body(rng, n, depth, visible, budget, allow_measure=True, pred=None):
         r = rng.random()
         if r < 0.22 and depth > 0:
             sub_allow = allow_measure and rng.random() < 0.7
-            body = gen_body(rng, n, depth - 1, visible | local, budget, sub_allow, pred)
+            body = gen_body(rng, n, depth - 1, visible | local, budget, sub_allow, pred, cond_blocks)
             unitary = _is_unitary_items(body)
             reps_choices = [0, 1, 2, 3, -1, -2] if unitary else [0, 1, 1, 2, 2, 3]
             reps = int(reps_choices[int(rng.integers(len(reps_choices)))])
@@ -81,8 +83,11 @@ def gen_body(rng, n, depth, visible, budget, allow_measure=True, pred=None):
                 cands = [k for k in KEY_WIDTH if KEY_WIDTH[k] == KEY_WIDTH[src] and k != src
                          and k not in visible and k not in local and not _name_used(body, k)]
                 ext_refs = _extern_control_names(body)
-                if cands and src not in ext_refs:
+                # (with cond_blocks also keys that the body controls on: measurement and controls are renamed together)
+                if cands and (src not in ext_refs or (cond_blocks and rng.random() < 0.5)):
                     blk["kmap"] = {src: cands[0]}
+            elif cond_blocks and rng.random() < 0.4:
+                _rename_extern_control(rng, blk, body, visible | local)
             items.append(blk)
             if reps != 0 and (blk["use_ids"] is False or (blk["use_ids"] is None and blk["ids"] is None) or abs(reps) <= 1 and blk["ids"] is None):
                 # measurements inside appear at this level under their (mapped) plain names
@@ -100,7 +105,7 @@ def gen_body(rng, n, depth, visible, budget, allow_measure=True, pred=None):
             budget[0] -= k
             items.append(st)
             local.add(name)
-        elif r < 0.55 and allow_measure and (visible | local):
+        elif r < 0.55 and (allow_measure or cond_blocks) and (visible | local):
             names = sorted(visible | local)
             name = names[int(rng.integers(len(names)))]
             inner = P.gen_unitary_step(rng, dims, pred, arity_w=(0.0, 0.7, 0.3, 0.0))
@@ -108,9 +113,47 @@ def gen_body(rng, n, depth, visible, budget, allow_measure=True, pred=None):
             if rng.random() < 0.3:
                 cond = {"t": "sympy_eq", "key": name, "dims": (2,) * KEY_WIDTH[name], "const": int(rng.integers(0, 2 ** KEY_WIDTH[name]))}
             items.append({"t": "C", "cond": cond, "inner": inner})
+        elif cond_blocks and r < 0.65 and depth > 0 and (visible | local):
+            # a classically controlled sub-circuit; Cirq refuses measurements below a classical control
+            names = sorted(visible | local)
+            name = names[int(rng.integers(len(names)))]
+            body = gen_body(rng, n, depth - 1, visible | local, budget, False, pred, True)
+            blk = {"t": "B", "body": body, "reps": int([1, 1, 2, 3, 0][int(rng.integers(5))]), "ids": None, "use_ids": None, "qmap": {}, "kmap": {}}
+            if rng.random() < 0.3:
+                perm = [int(x) for x in rng.permutation(n)]
+                blk["qmap"] = {w: perm[w] for w in range(n) if perm[w] != w}
+            if rng.random() < 0.5:
+                _rename_extern_control(rng, blk, body, visible | local)
+            cond = {"t": "key", "key": name, "index": -1}
+            if rng.random() < 0.3:
+                cond = {"t": "sympy_eq", "key": name, "dims": (2,) * KEY_WIDTH[name], "const": int(rng.integers(0, 2 ** KEY_WIDTH[name]))}
+            items.append({"t": "CB", "cond": cond, "blk": blk})
         else:
             items.append(P.gen_unitary_step(rng, dims, pred, arity_w=(0.03, 0.55, 0.37, 0.05)))
     return items
+
+
+def _rename_extern_control(rng, blk, body, outer_visible):
+    """key map entry that re-points a control key the body does not measure itself onto another visible key"""
+    local = _all_measured_names(body)
+    refs = sorted(k for k in _extern_control_names(body) if k not in local)
+    if not refs:
+        return
+    src = refs[int(rng.integers(len(refs)))]
+    # (merging two keys that a nested CircuitOperation both touches is a documented ValueError: the target must be unused inside)
+    cands = sorted(k for k in outer_visible if KEY_WIDTH[k] == KEY_WIDTH[src] and k != src and k not in local and not _name_used(body, k))
+    if cands:
+        blk["kmap"] = {src: cands[int(rng.integers(len(cands)))]}
+
+
+def _all_measured_names(items):
+    out = set()
+    for it in items:
+        if it["t"] == "M":
+            out.add(it["key"])
+        elif it["t"] == "B":
+            out |= _all_measured_names(it["body"]) | set(it["kmap"].values())
+    return out
 
 
 def _local_measured_names(items):
@@ -134,6 +177,8 @@ def _name_used(items, name):
             return True
         if it["t"] == "B" and (_name_used(it["body"], name) or name in it["kmap"].values()):
             return True
+        if it["t"] == "CB" and (it["cond"]["key"] == name or _name_used([it["blk"]], name)):
+            return True
     return False
 
 
@@ -144,7 +189,11 @@ def _extern_control_names(items):
         if it["t"] == "C":
             out.add(it["cond"]["key"])
         elif it["t"] == "B":
-            out |= _extern_control_names(it["body"])
+            km = it["kmap"]
+            out |= {km.get(k, k) for k in _extern_control_names(it["body"])}
+        elif it["t"] == "CB":
+            out.add(it["cond"]["key"])
+            out |= _extern_control_names([it["blk"]])
     return out
 
 
@@ -179,48 +228,66 @@ def flatten(items):
             out.append({"t": "C", "ckey": key, "bound": key in measured, "cond": it["cond"],
                         "inner": {"t": "U", "spec": it["inner"]["spec"], "p": it["inner"]["p"], "w": tuple(it["inner"]["w"]), "inv": False}})
         elif t == "B":
-            reps = it["reps"]
-            if reps == 0:
-                continue
-            inner = flatten(it["body"])
-            has_meas = any(s["t"] == "M" for s in inner)
-            q = it["qmap"]
-            mapped = []
-            for s in inner:
-                s = copy.deepcopy(s)
-                if "w" in s:
-                    s["w"] = tuple(q.get(w, w) for w in s["w"])
-                if s["t"] == "C":
-                    s["inner"]["w"] = tuple(q.get(w, w) for w in s["inner"]["w"])
-                mapped.append(s)
-            if reps < 0:
-                mapped = [dict(s, inv=not s["inv"]) for s in reversed(mapped)]
-            km = it["kmap"]
-            for s in mapped:
-                if s["t"] == "M":
-                    s["key"] = s["key"][:-1] + (km.get(s["key"][-1], s["key"][-1]),)
-                elif s["t"] == "C":
-                    s["ckey"] = s["ckey"][:-1] + (km.get(s["ckey"][-1], s["ckey"][-1]),)
-            ids = _effective_ids(it) if has_meas else None
-            # Scoping is static: a control that is not bound inside the body can only bind to keys measured
-            # *before this block* in the enclosing body (the block's extern keys), never to a measurement made
-            # by an earlier repetition of the same block.
-            measured_before_block = set(measured)
-            for i in range(abs(reps)):
-                prefix = (ids[i],) if ids is not None else ()
-                for s in mapped:
-                    s = copy.deepcopy(s)
-                    if s["t"] == "M":
-                        s["key"] = prefix + s["key"]
-                        measured.add(s["key"])
-                    elif s["t"] == "C":
-                        if s["bound"]:
-                            s["ckey"] = prefix + s["ckey"]
-                        else:
-                            s["bound"] = s["ckey"] in measured_before_block
-                    out.append(s)
+            out += _flatten_block(it, measured)
+        elif t == "CB":
+            key = (it["cond"]["key"],)
+            guard = {"ckey": key, "bound": key in measured, "cond": it["cond"]}
+            for s in _flatten_block(it["blk"], measured):
+                s.setdefault("guards", []).append(copy.deepcopy(guard))
+                out.append(s)
         else:
             raise ValueError(t)
+    return out
+
+
+def _ctrl_refs(s):
+    """the control references of a flat step: the step itself when it is a controlled step, plus its block guards"""
+    return ([s] if s["t"] == "C" else []) + list(s.get("guards", ()))
+
+
+def _flatten_block(it, measured):
+    """flat steps of one block placed in a body where `measured` (updated in place) holds the keys measured so far"""
+    out = []
+    reps = it["reps"]
+    if reps == 0:
+        return out
+    inner = flatten(it["body"])
+    has_meas = any(s["t"] == "M" for s in inner)
+    q = it["qmap"]
+    mapped = []
+    for s in inner:
+        s = copy.deepcopy(s)
+        if "w" in s:
+            s["w"] = tuple(q.get(w, w) for w in s["w"])
+        if s["t"] == "C":
+            s["inner"]["w"] = tuple(q.get(w, w) for w in s["inner"]["w"])
+        mapped.append(s)
+    if reps < 0:
+        mapped = [dict(s, inv=not s["inv"]) for s in reversed(mapped)]
+    km = it["kmap"]
+    for s in mapped:
+        if s["t"] == "M":
+            s["key"] = s["key"][:-1] + (km.get(s["key"][-1], s["key"][-1]),)
+        for c in _ctrl_refs(s):
+            c["ckey"] = c["ckey"][:-1] + (km.get(c["ckey"][-1], c["ckey"][-1]),)
+    ids = _effective_ids(it) if has_meas else None
+    # Scoping is static: a control that is not bound inside the body can only bind to keys measured
+    # *before this block* in the enclosing body (the block's extern keys), never to a measurement made
+    # by an earlier repetition of the same block.
+    measured_before_block = set(measured)
+    for i in range(abs(reps)):
+        prefix = (ids[i],) if ids is not None else ()
+        for s in mapped:
+            s = copy.deepcopy(s)
+            if s["t"] == "M":
+                s["key"] = prefix + s["key"]
+                measured.add(s["key"])
+            for c in _ctrl_refs(s):
+                if c["bound"]:
+                    c["ckey"] = prefix + c["ckey"]
+                else:
+                    c["bound"] = c["ckey"] in measured_before_block
+            out.append(s)
     return out
 
 
@@ -245,6 +312,10 @@ def flat_to_ref(flat):
             steps.append(I.If(P.key_cond_fn(cond), I.U(m.conj().T if s["inner"]["inv"] else m, s["inner"]["w"])))
         else:
             raise ValueError(s["t"])
+        for g in s.get("guards", ()):
+            cond = dict(g["cond"])
+            cond["key"] = keystr(g["ckey"])
+            steps[-1] = I.If(P.key_cond_fn(cond), steps[-1])
     return steps
 
 
@@ -253,13 +324,19 @@ def flat_keys(flat):
 
 
 def flat_unbound_controls(flat):
-    return sorted({keystr(s["ckey"]) for s in flat if s["t"] == "C" and not s["bound"]})
+    return sorted({keystr(c["ckey"]) for s in flat for c in _ctrl_refs(s) if not c["bound"]})
+
+
+def flat_control_keys(flat):
+    return sorted({keystr(c["ckey"]) for s in flat for c in _ctrl_refs(s)})
 
 
 # ------------------------------------------------------------------ Cirq construction
 def item_to_op(it, qubits):
     import cirq
 
+    if it["t"] == "CB":
+        return item_to_op(it["blk"], qubits).with_classical_controls(P.cirq_cond(it["cond"]))
     if it["t"] != "B":
         return P.step_to_op(it, qubits)
     moments = items_to_moments(it["body"], qubits)
@@ -278,6 +355,9 @@ def item_to_op(it, qubits):
 
 
 def item_qubits_keys(it):
+    if it["t"] == "CB":
+        ws, ks = item_qubits_keys(it["blk"])
+        return ws, ks | {it["cond"]["key"]}
     if it["t"] != "B":
         return P.step_qubits_keys(it)
     ws, ks = set(), set()
@@ -296,13 +376,13 @@ def items_to_moments(items, qubits):
     moments, cur, used_q, used_k = [], [], set(), set()
     for it in items:
         w, keys = item_qubits_keys(it)
-        if (w & used_q or keys & used_k or it["t"] == "B") and cur:
+        if (w & used_q or keys & used_k or it["t"] in ("B", "CB")) and cur:
             moments.append(cirq.Moment(cur))
             cur, used_q, used_k = [], set(), set()
         cur.append(item_to_op(it, qubits))
         used_q |= w
         used_k |= keys
-        if it["t"] == "B":
+        if it["t"] in ("B", "CB"):
             moments.append(cirq.Moment(cur))
             cur, used_q, used_k = [], set(), set()
     if cur:
@@ -313,7 +393,10 @@ def items_to_moments(items, qubits):
 def describe(items, ind=0):
     out = []
     for it in items:
-        if it["t"] == "B":
+        if it["t"] == "CB":
+            out.append("%sIF(%s) controls:" % ("  " * ind, {k: v for k, v in it["cond"].items() if k != "dims"}))
+            out += describe([it["blk"]], ind + 1)
+        elif it["t"] == "B":
             out.append("%sBLOCK reps=%s ids=%s use_ids=%s qmap=%s kmap=%s {" % ("  " * ind, it["reps"], it["ids"], it["use_ids"], it["qmap"], it["kmap"]))
             out += describe(it["body"], ind + 1)
             out.append("  " * ind + "}")
